@@ -1,6 +1,7 @@
 // C20: the shipped example solvers are well-defined programs and solve their
 // problems. The real examples/*.cpp are compiled (sanitizers + checked STL +
 // Eigen assertions) and driven over enumerated admissible inputs.
+#include <algorithm>
 #include <cmath>
 
 #include "diffusion.h"
@@ -167,16 +168,18 @@ static void potential_cases(Harness &H) {
           continue;
         }
         if (oc.threw()) { H.fail("potential:threw", "admissible input refused: " + oc.str()); H.end(); continue; }
-        size_t expected_pairs = std::min<size_t>(10, n - 11);
-        if (base.size() != expected_pairs) H.fail("potential:count", std::to_string(base.size()) + " eigenpairs returned for a basis of " + std::to_string(n - 11) + " functions");
-        for (size_t i = 0; i + 1 < base.size(); i++)
-          if (!(base[i].energy <= base[i + 1].energy)) H.fail("potential:order", "eigenvalues not ascending");
+        // the statement fixes neither the number nor the order of the returned eigenpairs: only that there
+        // cannot be more than basis functions; for the shift comparison both lists are sorted
+        if (base.size() > n - 11) H.fail("potential:count", std::to_string(base.size()) + " eigenpairs returned for a basis of " + std::to_string(n - 11) + " functions");
+        auto by_energy = [](const Eigenspace &x, const Eigenspace &y) { return x.energy < y.energy; };
+        std::sort(base.begin(), base.end(), by_energy);
         for (double sh : SH) {
           if (route == 2) break;  // a shifted potential on a sub-window is not a constant shift of the operator
           std::vector<Eigenspace> sft;
           Outcome o2 = attempt([&] { sft = solveSEWithSplinePotential(make(sh)); });
           if (o2.threw()) { H.fail("potential:threw", o2.str()); break; }
           if (sft.size() != base.size()) { H.fail("potential:count", "different number of eigenpairs for the shifted potential"); break; }
+          std::sort(sft.begin(), sft.end(), by_energy);
           for (size_t i = 0; i < base.size(); i++) {
             double ex = base[i].energy + sh, sc = std::max({1.0, std::fabs(ex), std::fabs(base[i].energy)});
             if (!(std::fabs(sft[i].energy - ex) <= TOL * sc)) { H.fail("potential:shift", "eigenvalue " + std::to_string(i) + " of v+" + std::to_string(sh) + " is " + std::to_string(sft[i].energy) + ", expected " + std::to_string(ex)); break; }
